@@ -5,6 +5,8 @@ import (
 	"flag"
 	"fmt"
 	"os"
+	"runtime"
+	"runtime/pprof"
 	"strings"
 
 	"github.com/mimiro-io/datahub/internal/verif/out"
@@ -70,4 +72,15 @@ func main() {
 		w.Stat("hook:"+k, v)
 	}
 	w.Close()
+	if hp := os.Getenv("VERIF_HEAPPROF"); hp != "" { // debugging aid for the harness' own memory use
+		runtime.GC()
+		if f, err := os.Create(hp); err == nil {
+			_ = pprof.WriteHeapProfile(f)
+			f.Close()
+		}
+		if f, err := os.Create(hp + ".goroutines"); err == nil {
+			_ = pprof.Lookup("goroutine").WriteTo(f, 1)
+			f.Close()
+		}
+	}
 }
